@@ -867,6 +867,23 @@ func (e *Engine) step(st *State, fr *Frame, in ssa.Instruction) {
 		fr.defers = append(fr.defers, d)
 	case *ssa.Go:
 		st.note("go statement not executed: " + x.Call.String())
+		// A goroutine started from a closure may write the variables it captured; by the time the spawner reads them
+		// (after a WaitGroup.Wait or a channel hand-shake) those writes have happened: forget the captured cells now.
+		// Other effects of the goroutine (calls it makes) are covered by verifying the closure as a function of its own.
+		if mc, ok := x.Call.Value.(*ssa.MakeClosure); ok {
+			if cfn, ok := mc.Fn.(*ssa.Function); ok {
+				w := writtenFreeVars(cfn, map[*ssa.Function]bool{})
+				for i, b := range mc.Bindings {
+					if !w[i] {
+						continue // only read (or handed to callees whose own contracts state their effects)
+					}
+					bv := e.val(st, fr, b)
+					if isPointer(bv.T) {
+						st.havocAt(ptrInfo(bv), deref(bv.T), "go")
+					}
+				}
+			}
+		}
 	case *ssa.If:
 		c := e.val(st, fr, x.Cond).t()
 		tb, fb := fr.blk.Succs[0], fr.blk.Succs[1]
@@ -2109,4 +2126,46 @@ func pcHasQuant(st *State) bool {
 		}
 	}
 	return false
+}
+
+// writtenFreeVars: indexes of the captured variables a closure assigns to directly (a Store through the capture
+// pointer), in its own body or in a closure nested in it.
+func writtenFreeVars(fn *ssa.Function, seen map[*ssa.Function]bool) map[int]bool {
+	out := map[int]bool{}
+	if seen[fn] {
+		return out
+	}
+	seen[fn] = true
+	idx := map[ssa.Value]int{}
+	for i, fv := range fn.FreeVars {
+		idx[fv] = i
+	}
+	for _, b := range fn.Blocks {
+		for _, in := range b.Instrs {
+			switch x := in.(type) {
+			case *ssa.Store:
+				if i, ok := idx[x.Addr]; ok {
+					out[i] = true
+				}
+				// store into a field of a captured struct
+				if fa, ok := x.Addr.(*ssa.FieldAddr); ok {
+					if i, ok := idx[fa.X]; ok {
+						out[i] = true
+					}
+				}
+			case *ssa.MakeClosure:
+				if nfn, ok := x.Fn.(*ssa.Function); ok {
+					nw := writtenFreeVars(nfn, seen)
+					for j, bnd := range x.Bindings {
+						if nw[j] {
+							if i, ok := idx[bnd]; ok {
+								out[i] = true
+							}
+						}
+					}
+				}
+			}
+		}
+	}
+	return out
 }
